@@ -196,5 +196,8 @@ pub fn panic_msg(p: &Box<dyn std::any::Any + Send>) -> String {
 }
 
 pub fn quiet_panics() {
+    if std::env::var("VERIF_LOUD").is_ok() {
+        return;
+    }
     std::panic::set_hook(Box::new(|_| {}));
 }
